@@ -17,6 +17,7 @@
 package recovery
 
 import (
+	"errors"
 	"fmt"
 	"net/http"
 	"runtime/debug"
@@ -34,6 +35,17 @@ func New(eh errorhandler.ErrorHandler) func(http.Handler) http.Handler {
 		return http.HandlerFunc(func(rw http.ResponseWriter, req *http.Request) {
 			defer func() { //nolint:contextcheck
 				if rec := recover(); rec != nil {
+					if abort, ok := rec.(error); ok && errors.Is(abort, http.ErrAbortHandler) {
+						// The handler gave up on a response it had already begun to send (httputil.ReverseProxy
+						// does so when the upstream dies in the middle of the body). The status line is gone, no
+						// error response can be written any more. Returning normally would let net/http complete
+						// the message, so that the client takes the truncated body for the whole response to its
+						// request. Let net/http abort the response instead.
+						zerolog.Ctx(req.Context()).Warn().Msg("Response aborted")
+
+						panic(rec)
+					}
+
 					zerolog.Ctx(req.Context()).Error().Msg(fmt.Sprintf("%v\n%s", rec, stringx.ToString(debug.Stack())))
 
 					err, ok := rec.(error)
